@@ -132,10 +132,13 @@ async fn send_event(
 		Tag::Signal(sig),
 	];
 
-	let event = Event {
+	#[cfg_attr(not(watchexec_verif), allow(unused_mut))]
+	let mut event = Event {
 		tags,
 		metadata: Default::default(),
 	};
+	#[cfg(watchexec_verif)]
+	crate::sources::fs::verif::stamp(&mut event);
 
 	trace!(?event, "processed signal into event");
 	if let Err(err) = events
